@@ -695,6 +695,10 @@ impl Searcher {
         // enabled. This pre-allocates a buffer roughly the size of the file,
         // which isn't possible when searching an arbitrary std::io::Read.
         if self.multi_line_with_matcher(&matcher) {
+            // Every other strategy reports a configuration error (e.g.
+            // mismatched line terminators) through `search_slice` or
+            // `search_reader`. This one must do so too.
+            self.check_config(&matcher).map_err(S::Error::error_config)?;
             log::trace!(
                 "{:?}: reading entire file on to heap for mulitline",
                 path
